@@ -79,9 +79,11 @@ def _tlc_trace(name, execs):
     tf = os.path.join(d, name + ".ndjson"); cfgp = os.path.join(d, "AioTrace.cfg")
     vlib.write_ndjson(tf, [e for x in execs for e in x])
     if not os.path.exists(cfgp):
-        with open(cfgp + ".%d" % os.getpid(), "w") as f:
+        import threading
+        tmp = cfgp + ".%d.%d" % (os.getpid(), threading.get_ident())
+        with open(tmp, "w") as f:
             f.write(TRACE_CFG)
-        os.replace(cfgp + ".%d" % os.getpid(), cfgp)
+        os.replace(tmp, cfgp)
     r = vlib.tlc("AioTrace", cfgp, workers=1, env={"TRACE": tf}, timeout=2400, xmx="3g")
     if r.error:
         raise vlib.Infra("trace validation %s: %s" % (name, r.error))
